@@ -22,7 +22,15 @@ HEADER = ("From Coq Require Import String.\nFrom Coq Require Import List NArith 
 # data set: databases default / db1 / db2; the caller is normally allowed db1 only
 # ---------------------------------------------------------------------------------------
 MEASUREMENTS = [("default", "cpu"), ("default", "mem"), ("db1", "cpu"), ("db1", "mem"), ("db1", "CPU"), ("db1", "pg_metrics"),
-                ("db2", "secret"), ("db2", "cpu"), ("db2", "pg_audit")]
+                ("db2", "secret"), ("db2", "cpu"), ("db2", "pg_audit"), ("db2", "2024x")]
+# measurements whose names are NOT plain identifiers: the name scanners of the converters and the patterns of the
+# permission check must cut such text at the same byte (they live in the caller's own database db1: a statement that
+# reads one of them after a check of another name is a leak whichever side moved)
+BOUNDARY_NAMES = ["cpu-archive", "cpu$old", "cpu#1", "cpu:1", "cpu\u00e9", "cpu.old", "2024x", "9cpu"]
+BOUNDARY_PLANTED = ["cpu-archive", "cpu$old", "cpu\u00e9", "cpu.old", "2024x"]      # the others only as text (model vs implementation)
+MEASUREMENTS += [("db1", n) for n in BOUNDARY_PLANTED]
+PLAIN = re.compile(r"[A-Za-z_]\w*$", re.A)
+
 
 
 def marker_value(db, m):
@@ -30,7 +38,7 @@ def marker_value(db, m):
 
 
 def marker_column(db, m):
-    return "k_%s_%s" % (db, m)
+    return "k_%s_%s" % (db, re.sub(r"\W", lambda x: "_%x" % ord(x.group(0)), m, flags=re.A))
 
 
 def dataset_files(rng=None, nfiles=2):
@@ -76,7 +84,7 @@ def reference_views():
     for inst in ["", "db1", "db2"]:
         bare_db = inst or "default"
         for db, m in MEASUREMENTS:
-            if m != m.lower():
+            if m != m.lower() or not PLAIN.match(m):
                 continue                      # DuckDB's catalog is case-insensitive: db1.CPU would clash with db1.cpu
             glob = "%s/%s/**/*.parquet" % (db, m)
             views.append({"inst": inst, "schema": db, "name": m, "glob": glob})
@@ -97,11 +105,17 @@ PROBES = [
     ("single-table-fast-path-keywords", "SELECT a.id FROM cpu a WHERE a.id IN (SELECT id\nFROM\nmem b)", "db1"),
     ("quoted-cte-declaration", "WITH \"vq8\" AS (SELECT 1 AS one) SELECT * FROM vq8", ""),
     ("quote-scanning-backtick-estring", "SELECT E'a\\'' AS a", ""),
+    ("fast-path-name-seen-by-check", "SELECT * FROM 2024x", "db1"),
+    ("reserved-placeholder-text", "SELECT '__STR_9__' AS a", ""),
 ]
 # the repair of GET /api/v1/query/:measurement (fixes/C14_query_measurement_checks_all_references.patch) is outside
 # the gate model: detected here, used by the oracle's classification only
 MEASUREMENT_PROBE = ("id >= (SELECT min(id) FROM db2.secret)", "db1", "cpu")
 MEASUREMENT_FIXED = False
+# ... and of its permission check taking the x-arc-database header although the endpoint transforms without one
+# (fixes/C14_query_measurement_ignores_header_override.patch): (where, database, measurement, x-arc-database)
+MEASUREMENT_HDR_PROBE = ("id >= (SELECT min(id) FROM mem)", "db1", "cpu", "db1")
+MEASUREMENT_HDR_FIXED = False
 FIXBITS = 0
 
 
@@ -126,24 +140,32 @@ def detect_fixes(outs):
         bits |= 128
     if o[8].get("status") == 400 and "Backslash before a quote" in (o[8].get("err") or ""):
         bits |= 256
+    if o[9].get("executed") is not None and "read_parquet" not in o[9]["executed"]:
+        bits |= 512
+    if o[10].get("status") == 400 and "Reserved placeholder text" in (o[10].get("err") or ""):
+        bits |= 1024
     return bits
 
 
 def fix_names(bits=None):
     bits = FIXBITS if bits is None else bits
-    return [PROBES[i][0] for i in range(len(PROBES)) if bits >> i & 1] + (["query-measurement-checks-all-references"] if MEASUREMENT_FIXED else [])
+    return [PROBES[i][0] for i in range(len(PROBES)) if bits >> i & 1] + (["query-measurement-checks-all-references"] if MEASUREMENT_FIXED else []) + (
+        ["query-measurement-ignores-header-override"] if MEASUREMENT_HDR_FIXED else [])
 
 
 def run_cases(pid, cases, tag, files=None, views=None, timeout=2400):
     """runs the cases (plus the probe statements) through the harness; sets FIXBITS"""
-    global FIXBITS, MEASUREMENT_FIXED
+    global FIXBITS, MEASUREMENT_FIXED, MEASUREMENT_HDR_FIXED
     probes = [mk_case(sql, hdr, allow=["*"], reads=False) for _, sql, hdr in PROBES]
+    probes.append(dict(mk_case(MEASUREMENT_HDR_PROBE[0], MEASUREMENT_HDR_PROBE[1], allow=["db1"], reads=False), ep="measurement",
+                       meas=MEASUREMENT_HDR_PROBE[2], xhdr=MEASUREMENT_HDR_PROBE[3]))
     probes.append(dict(mk_case(MEASUREMENT_PROBE[0], MEASUREMENT_PROBE[1], allow=["db1"], reads=False), ep="measurement", meas=MEASUREMENT_PROBE[2]))
     inp = {"files": files if files is not None else dataset_files(), "measures": measures(), "markers": markers(),
            "views": views or [], "cases": probes + list(cases)}
     outs = vlib.run_go_harness(pid, PKG, TEST, HARNESS, inp, tags=TAGS, timeout=timeout, tag=tag)
     FIXBITS = detect_fixes(outs[:len(probes)])
     MEASUREMENT_FIXED = outs[len(probes) - 1].get("status") == 403
+    MEASUREMENT_HDR_FIXED = outs[len(probes) - 2].get("status") == 403
     return outs[len(probes):]
 
 
@@ -162,7 +184,7 @@ REJECTS = [
     (4, "Dangerous SQL operation not allowed"), (5, "File I/O function not allowed in user SQL: "),
     (6, "String literal not allowed in table position"), (7, "Quoted identifier in table position is not a valid"),
     (8, "invalid x-arc-database header"), (9, "Cross-database queries"), (10, "invalid database name"),
-    (11, "Backslash before a quote is not supported"),
+    (11, "Backslash before a quote is not supported"), (12, "Reserved placeholder text"),
 ]
 
 
@@ -431,7 +453,7 @@ class Gen:
         dbs = {"own": ["db1"], "foreign": ["db2"], "default": ["default"]}
         target = target or r.choice(["own"] * 5 + ["foreign"] * 2 + ["default"])
         db = dbs[target][0]
-        m = r.choice([mm for d, mm in MEASUREMENTS if d == db and not mm.startswith("pg_")] + (["nosuch"] if r.random() < 0.05 else []))
+        m = r.choice([mm for d, mm in MEASUREMENTS if PLAIN.match(mm) and d == db and not mm.startswith("pg_")] + (["nosuch"] if r.random() < 0.05 else []))
         if r.random() < 0.04:
             m = {"db1": "pg_metrics", "db2": "pg_audit"}.get(db, m)      # a measurement on the skip list
         return db, m
@@ -446,7 +468,7 @@ class Gen:
         qualify = (self.hdr == "" and db != "default") or (self.hdr != "" and r.random() < 0.08) or (self.hdr == "" and r.random() < 0.1)
         if self.hdr != "" and not qualify:
             db = self.hdr                       # an unqualified name means the header database
-            m = r.choice([mm for d, mm in MEASUREMENTS if d == db and not mm.startswith("pg_")] or [m])
+            m = r.choice([mm for d, mm in MEASUREMENTS if PLAIN.match(mm) and d == db and not mm.startswith("pg_")] or [m])
         if qualify:
             self.items.append(("name", db, m, "qualified"))
             sep = "." if r.random() < 0.93 else r.choice([" .", ". ", ".\n"])
@@ -700,10 +722,10 @@ class ValidGen:
             self.labels.add("cte-ref")
             return r.choice(self.ctes)
         if self.hdr:
-            m = r.choice([mm for d, mm in MEASUREMENTS if d == self.hdr and mm == mm.lower() and not mm.startswith("pg_")])
+            m = r.choice([mm for d, mm in MEASUREMENTS if PLAIN.match(mm) and d == self.hdr and mm == mm.lower() and not mm.startswith("pg_")])
             return self.q(m)
         db = r.choice(["default", "db1", "db1", "db2"])
-        m = r.choice([mm for d, mm in MEASUREMENTS if d == db and mm == mm.lower() and not mm.startswith("pg_")])
+        m = r.choice([mm for d, mm in MEASUREMENTS if PLAIN.match(mm) and d == db and mm == mm.lower() and not mm.startswith("pg_")])
         if db == "default" and r.random() < 0.8:
             return self.q(m)
         if db == "default":
@@ -918,4 +940,17 @@ def cache_pairs():
     out.append(("quoted-identifier-case", [(a, "db1", ["*"])], b, "db1", ["*"]))
     a, b = "SELECT pd1.id AS \"Ab\" FROM cpu pd1", "SELECT pd1.id AS \"ab\" FROM cpu pd1"
     out.append(("quoted-alias-case", [(a, "db1", ["*"])], b, "db1", ["*"]))
+    return out
+
+
+def boundary_probes():
+    """[(sql, hdr, also through /api/v1/query/arrow)]: unquoted names with a non-identifier byte next to identifier bytes, in the positions the
+    single-table fast paths and the regexp paths scan"""
+    out = []
+    for n in BOUNDARY_NAMES + ["cpu-", "-cpu", "cpu--x", "cpu$", "\u00e9cpu", "1e5"]:
+        out.append(("SELECT * FROM %s LIMIT 5" % n, "db1", True))
+        out.append(("select id, tag from\t%s t where id >= 0" % n, "db1", True))
+        out.append(("SELECT a.id FROM cpu a JOIN %s b ON a.id = b.id" % n, "db1", False))
+        out.append(("SELECT * FROM %s" % n, "", False))
+        out.append(("SELECT * FROM db1.%s" % n, "", False))
     return out
